@@ -4,13 +4,13 @@
 // reader operations are contract stubs that log the call and its width and deliver scripted symbolic values (read_vlc: the leaf at a
 // symbolic slot of the real TCOEF table), and the harness replays the same script through the Recommendation's syntax and compares the
 // sequence of reads and the resulting Block (INTRADC code, every event's RUN, signed LEVEL, short/escape form; the block ends exactly at
-// LAST). BOUNDED to blocks of at most 3 events (the loop body is the same for every event); complete over table slots, signs, escape
+// LAST). BOUNDED to blocks of at most N events, N = 3 (quick) or 4 (thorough) (the loop body is the same for every event); complete over table slots, signs, escape
 // fields, stream versions, macroblock types and failing positions.
 #[cfg(kani)]
 pub mod blkasm {
     use super::*;
 
-    pub const NEV: usize = 3;
+    pub const NEV: usize = 4;
     pub const T_VLC: u8 = 0x40;
     pub const T_RD: u8 = 0x80; // | width
     pub const T_SRD: u8 = 0xC0; // | width (signed read)
@@ -22,12 +22,12 @@ pub mod blkasm {
         pub fail_at: usize,
         pub slots: [usize; NEV],
         pub nvlc: usize,
-        pub vals: [u8; 16],
+        pub vals: [u8; 24],
         pub nrd: usize,
         pub svals: [i16; NEV],
         pub nsrd: usize,
     }
-    pub static mut ST: St = St { magic: 0xB10C_A55E_3B1E_5EED, log: [0; 24], nlog: 0, fail_at: 99, slots: [0; NEV], nvlc: 0, vals: [0; 16], nrd: 0, svals: [0; NEV], nsrd: 0 };
+    pub static mut ST: St = St { magic: 0xB10C_A55E_3B1E_5EED, log: [0; 24], nlog: 0, fail_at: 99, slots: [0; NEV], nvlc: 0, vals: [0; 24], nrd: 0, svals: [0; NEV], nsrd: 0 };
 
     fn log(tag: u8) -> bool {
         unsafe {
@@ -50,7 +50,7 @@ pub mod blkasm {
             unsafe {
                 let k = ST.nrd;
                 ST.nrd = k + 1;
-                Ok(T::from(mask(if k < 16 { ST.vals[k] } else { 0 }, n)))
+                Ok(T::from(mask(if k < 24 { ST.vals[k] } else { 0 }, n)))
             }
         }
         pub fn verif_blk_read_signed_bits<T: crate::traits::BitReadable>(&mut self, n: u32) -> Result<T> {
@@ -86,13 +86,13 @@ pub mod blkasm {
 
     fn blank_picture(version: Option<u8>) -> Picture {
         Picture {
-            version, temporal_reference: 0, format: None, options: PictureOption::empty(), has_plusptype: false, has_opptype: false, picture_type: PictureTypeCode::IFrame,
+            version, temporal_reference: 0, format: None, options: PictureOption::empty(), has_plusptype: false, has_opptype: false, picture_type: crate::types::PictureTypeCode::IFrame,
             motion_vector_range: None, slice_submode: None, scalability_layer: None, reference_picture_selection_mode: None, prediction_reference: None,
             backchannel_message: None, reference_picture_resampling: None, quantizer: 1, multiplex_bitstream: None, pb_reference: None, pb_quantizer: None, extra: Vec::new(),
         }
     }
 
-    pub fn blk_assembly<const INJECT: bool>() {
+    pub fn blk_assembly<const INJECT: bool, const N: usize>() {
         let dec_bits: u8 = kani::any();
         kani::assume(dec_bits < 4);
         let dec = DecoderOption::from_bits_truncate(dec_bits);
@@ -104,10 +104,10 @@ pub mod blkasm {
         let mbt = if intra { MacroblockType::Intra } else { MacroblockType::Inter };
         let present: bool = kani::any();
         let opts = PictureOption::from_bits_truncate(kani::any::<u32>() & !PictureOption::MODIFIED_QUANTIZATION.bits());
-        let vals: [u8; 16] = kani::any();
+        let vals: [u8; 24] = kani::any();
         let svals: [i16; NEV] = kani::any();
         let slots: [usize; NEV] = kani::any();
-        kani::assume(slots[0] < 207 && slots[1] < 207 && slots[2] < 207);
+        kani::assume(slots[0] < 207 && slots[1] < 207 && slots[2] < 207 && slots[3] < 207);
         unsafe {
             ST.fail_at = if INJECT { kani::any() } else { 99 };
             ST.vals = vals;
@@ -147,7 +147,7 @@ pub mod blkasm {
         }
         let mut more = present && !err;
         let mut e = 0;
-        while e < NEV {
+        while e < N {
             if more {
                 push!(T_VLC);
                 match TCOEF_TABLE.get(slots[e]) {
@@ -206,14 +206,17 @@ pub mod blkasm {
         let (nlog, fail_at) = unsafe { (ST.nlog, ST.fail_at) };
         let made = if fail_at < n { fail_at + 1 } else { n };
         assert!(nlog == made, "block.decode_block.order_len: exactly the syntax elements of H.263 5.4 are read (up to the first failing or invalid one)");
-        let mut j = 0;
+        // (unrolled: the harness's global unwinding bound is kept at the number of events)
+        let lg = unsafe { ST.log };
         let mut same = true;
-        while j < 24 {
-            if j < made && unsafe { ST.log[j] } != exp[j] {
-                same = false;
-            }
-            j += 1;
+        macro_rules! cmp {
+            ($($j:expr),*) => {$(
+                if $j < made && lg[$j] != exp[$j] {
+                    same = false;
+                }
+            )*};
         }
+        cmp!(0, 1, 2, 3, 4, 5, 6, 7, 8, 9, 10, 11, 12, 13, 14, 15, 16, 17, 18, 19, 20, 21, 22, 23);
         assert!(same, "block.decode_block.order: INTRADC (8 bits, INTRA only), then per event: TCOEF code word + sign bit, or ESCAPE + [flag] LAST (1) RUN (6) LEVEL (8 / 7 / 11, signed); the block ends at LAST = 1");
         match res {
             Err(e) => {
